@@ -1278,7 +1278,7 @@ def check_pot(case, v: Verdict):
         v.discarded(f"oracle: {str(exc)[:40]}")
         return
     v.checked("pot-oracle")
-    want_v, tol_v = want * pref, tol * pref + 1e-13 * np.abs(want * pref)
+    want_v, tol_v = want * pref, tol * pref + 1e-13 * np.abs(want * pref) + 1e-300   # floor: denormal dof
     v.info["pot_err_over_tol"] = float(np.max(np.abs(got - want_v) / (tol_v + 1e-300)))
     if np.any(np.abs(got - want_v) > tol_v):
         k = int(np.argmax(np.abs(got - want_v) / (tol_v + 1e-300)))
@@ -1351,7 +1351,7 @@ def check_pot(case, v: Verdict):
             v.info["oracle_fail"] = str(exc)
             v.discarded(f"oracle: {str(exc)[:40]}")
             return
-        bound = (lip + noise) * pref
+        bound = (lip + noise) * pref + 1e-300
         dv = np.abs(got2 - got)
         v.info["continuity_ratio"] = float(np.max(dv / (bound + 1e-300)))
         if np.any(dv > bound):
